@@ -416,6 +416,7 @@ def check_tables(ctx):
 
 
 def run(ctx):
+    from paramiko.message import Message
     rng = ctx.rng
     ctx.rule = ("seeded (random.Random('C35-<seed>')): keys = generated RSA-1024 (2048 in thorough), generated ECDSA "
                 "P-256/384/521, a fresh Ed25519 OpenSSH key, bundled key files of all classes (all in thorough); key objects = "
@@ -423,7 +424,7 @@ def run(ctx):
                 "messages (incl. empty) and, for RSA, all six algorithm names; verification of the genuine signature under "
                 "every counterpart, under other data, under other keys of the class, with bits flipped inside the signature "
                 "value, and ~60 structural mutations (truncation, extension, any-bit flips, 18 algorithm names incl. invalid "
-                "UTF-8, lying length prefixes, wrong blob lengths, RSA zero padding variants, RSA relabelling over all label x digest pairs (verifies iff same digest), signature/data boundary splices (sig(prefix||data)||prefix against data, sig(data)||data against the empty message, for every class), over-long RSA blobs (genuine signature with 1..37 leading zero bytes / other bytes in front / bytes behind: must be rejected), ECDSA negative / zero / oversized "
+                "UTF-8, lying length prefixes, wrong blob lengths, RSA zero padding variants, ECDSA signatures searched for r / s with top byte exactly 0x80 / 0xff / other >= 0x80 and re-encoded without the sign byte (negative mpint: must be rejected), RSA relabelling over all label x digest pairs (verifies iff same digest), signature/data boundary splices (sig(prefix||data)||prefix against data, sig(data)||data against the empty message, for every class), over-long RSA blobs (genuine signature with 1..37 leading zero bytes / other bytes in front / bytes behind: must be rejected), ECDSA negative / zero / oversized "
                 "/ non-minimal / truncated inner integers).  Every call is one case; non-trivial = distinct")
     ctx.trusted += ["recording shims around the library objects (PubProxy/PrivProxy, VerifyKey.verify patch) in this harness",
                     "cryptography / PyNaCl signature verification and key derivation (oracles)"]
@@ -541,6 +542,29 @@ def run(ctx):
                                 one(o, lab, k["label"], b"", build(name, blob + data), "splice-sig-then-data-vs-empty", expect=False)
                                 one(o, lab, k["label"], data[len(data) // 2:], build(name, blob + data[:len(data) // 2]),
                                     "splice-sig-then-half-data", expect=False)
+                    if ci == 1 and alg is None and data:
+                        # sign-byte boundary of the inner mpints: when r or s carries a 00 sign byte (top byte >= 0x80),
+                        # the blob WITHOUT that byte encodes a negative integer - an altered signature, must be False.
+                        # Signatures are searched so that the top byte is exactly 0x80 and 0xff at least once.
+                        found = {}
+                        for t in range(2500 if ctx.thorough else 1200):
+                            d2 = data + b"|" + t.to_bytes(2, "big")
+                            g2 = signer.sign_ssh_data(d2).asbytes()
+                            nm2, bl2 = parts(g2)
+                            im2 = Message(bl2)
+                            rb2, sb2 = im2.get_binary(), im2.get_binary()
+                            for which, b2 in (("r", rb2), ("s", sb2)):
+                                if b2[:1] == b"\x00" and len(b2) > 1:
+                                    tag = "0x80" if b2[1] == 0x80 else "0xff" if b2[1] == 0xff else "other"
+                                    if (which, tag) not in found:
+                                        found[(which, tag)] = 1
+                                        r3, s3 = (b2[1:], sb2) if which == "r" else (rb2, b2[1:])
+                                        alt = build(nm2, sstr_(r3) + sstr_(s3))
+                                        for lab, o in objs[:3]:
+                                            one(o, lab, k["label"], d2, g2, "genuine:signbyte", expect=True)
+                                            one(o, lab, k["label"], d2, alt, "ecdsa-sign-byte-dropped-top-%s" % tag, expect=False)
+                            if len(found) >= 6 or (t > 400 and sum(1 for f in found if f[1] == "0x80") >= 1 and len(found) >= 4):
+                                break
                     if ci == 0:
                         # relabelling: the same signature blob under every RSA algorithm name verifies exactly when the
                         # label's digest is the one the signature was made with
